@@ -321,7 +321,7 @@ def normalize(scn, raw):
         elif n == "quiescent":
             out.append({"e": "Quiescent"})
         elif n == "timeout":
-            out.append({"e": "Timeout", "what": str(e.get("what", ""))})
+            out.append({"e": "Timeout", "what": str(e.get("what", "")), "p": str(e.get("p", ""))})
     return c, out
 
 
